@@ -135,7 +135,7 @@ pub fn finish(ctx: &Ctx, out: Outcome) -> i32 {
         "wall_s": (ctx.wall() * 1000.0).round() / 1000.0,
         "violations": unlisted.len(),
     });
-    let evdir = ctx.verif_dir.join("evidence");
+    let evdir = std::env::var("VERIF_EVIDENCE_DIR").map(std::path::PathBuf::from).unwrap_or_else(|_| ctx.verif_dir.join("evidence"));
     let _ = std::fs::create_dir_all(&evdir);
     let evpath = evdir.join(format!("{}.json", ctx.prop));
     if let Err(e) = std::fs::write(&evpath, serde_json::to_string_pretty(&ev).unwrap() + "\n") {
@@ -148,7 +148,7 @@ pub fn finish(ctx: &Ctx, out: Outcome) -> i32 {
         println!("OK property={} tier={} wall={:.1}s evidence={}", ctx.prop, ctx.tier.name(), ctx.wall(), evpath.display());
         return 0;
     }
-    let rdir = ctx.verif_dir.join("replays");
+    let rdir = std::env::var("VERIF_EVIDENCE_DIR").map(|d| std::path::PathBuf::from(d).join("replays")).unwrap_or_else(|_| ctx.verif_dir.join("replays"));
     let _ = std::fs::create_dir_all(&rdir);
     // one replay file per distinct signature (first = simplest, searches are ordered simplest-first)
     let mut seen: Vec<&str> = vec![];
